@@ -78,9 +78,10 @@ def shrink(prop, script, fails):
     """Greedy minimisation: drop frames while the failure persists."""
     cur = script
     changed = True
+    keep_last = 1 if getattr(prop, "KEEP_LAST", False) else 0
     while changed and len(cur.frames) > 1:
         changed = False
-        for i in range(len(cur.frames)):
+        for i in range(len(cur.frames) - keep_last):
             cand = Script(cur.cfg, cur.frames[:i] + cur.frames[i + 1:], cur.tag)
             if fails(cand):
                 cur, changed = cand, True
@@ -90,6 +91,8 @@ def shrink(prop, script, fails):
 
 def evaluate(prop, scripts, drivers):
     """Run implementation(s) + model; return list of issue dicts and stats."""
+    if hasattr(prop, "evaluate_custom"):
+        return prop.evaluate_custom(scripts, drivers)
     issues = []
     stats = {"frames": 0, "replies": 0, "silence": 0, "panics": 0, "monitor_evals": 0}
     for dname, driver in drivers:
